@@ -27,7 +27,7 @@ import numpy as np
 from harness import c15_lib as L
 from harness.common import Run, coq_list, coq_str
 
-CONE = ["ValueProp.v", "ValuePropFacts.v"]
+CONE = ["ValueProp.v", "ValuePropFacts.v", "ValuePropProg.v", "ValuePropProgFacts.v"]
 PROPS = "props/C15.v"
 BACKENDS = ["REFERENCE", "ONNXRUNTIME"]
 BK_TERM = {"NONE": "BNone", "REFERENCE": "BRef", "ONNXRUNTIME": "BOrt"}
@@ -148,8 +148,11 @@ def node_term(node, tnode):
         kind = "KInline"
     elif isinstance(n, StandardNode) and n.op_type.identifier != "Constant":
         kind = "KStandard"
-    elif isinstance(n, (_Initializer,)) or n.op_type.identifier == "Constant":
-        kind = "(KSource None)"
+    elif isinstance(n, _Initializer):
+        arr = n.attrs.value.value
+        kind = f"(KSource (Some (VArr {L.elem_tag(arr.dtype, arr)} {L.nat_list(arr.shape)})))"
+    elif n.op_type.identifier == "Constant":
+        kind = f"(KSource (constant_value {constant_attr_term(n)}))"
     else:
         kind = "KPlain"
     seen, ins = [], []
@@ -168,6 +171,18 @@ def node_term(node, tnode):
         t = tvars[key].type if key in tvars else var.type
         outs.append(f"mkOut {coq_str(key)} {coq_str(bname)} {L.paren(L.some(L.refl_type(t)))} None None")
     return f"(mkNode {kind} {coq_list(ins)} {'true' if sub else 'false'} {coq_list(outs)})"
+
+
+def constant_attr_term(n):
+    """Gallina ``cattr`` of a Constant node (which attribute is set, and its size)."""
+    (key, raw), = ((k, v.value) for k, v in n.attrs.get_fields().items() if v is not None)
+    if key == "value":
+        return f"(AValue {L.elem_tag(raw.dtype, raw)} {L.nat_list(raw.shape)})"
+    if key in ("value_float", "value_int", "value_string"):
+        return {"value_float": "AFloat", "value_int": "AInt", "value_string": "AString"}[key]
+    if key in ("value_floats", "value_ints", "value_strings"):
+        return "(%s %d)" % ({"value_floats": "AFloats", "value_ints": "AInts", "value_strings": "AStrings"}[key], len(list(raw)))
+    return "ASparse"
 
 
 EXN_OF = [
@@ -305,9 +320,25 @@ def gen_feed(rng, prog):
 # ------------------------------------------------------------------------------------------------ the check
 
 
+class _Failure:
+    def __init__(self, kind, key):
+        self.kind, self.key = kind, key
+
+
+class _Collector:
+    """stand-in for Run while a failing case is being minimised"""
+
+    def __init__(self, rng):
+        self.failures, self.rng = [], rng
+
+    def fail(self, kind, key, what, detail=None):
+        self.failures.append(_Failure(kind, key))
+
+
 class Checker:
-    def __init__(self, run: Run, world: World):
+    def __init__(self, run, world: World):
         self.run, self.world = run, world
+        self.minimising = isinstance(run, _Collector)
         self.cases = []          # (expr, impl_render, n_warn_impl, info) for the correspondence
         self.hist = {"templates": {}, "faults": {}, "fault_kinds": {}, "outcomes": {}, "backends": {}, "steps_per_program": {},
                      "calls_at_step": {}, "output_kinds": {}}
@@ -323,24 +354,66 @@ class Checker:
         self.hist[h][k] = self.hist[h].get(k, 0) + 1
 
     # -- failures ------------------------------------------------------------------------------------
+    def reproduces(self, prog, backend, plan, key, strict):
+        col = _Collector(self.run.rng)
+        ck = Checker(col, self.world)
+        try:
+            if backend == "NONE":
+                ck.check_none_run(prog, run_program(self.world, prog, "NONE", typing=False))
+            else:
+                base = run_program(self.world, prog, backend)
+                fr = run_program(self.world, prog, backend, plan, reuse=base, strict=strict)
+                for p in sorted(fr["executed"]):
+                    ck.check_step(prog, fr, p)
+                if not strict:
+                    ck.check_downstream(prog, base, fr)
+        except Exception:  # noqa: BLE001
+            return False
+        return any(f.key == key and f.kind == "impl" for f in col.failures)
+
     def impl_fail(self, key, what, prog, backend, plan, pos, extra=None, strict=False):
         if any(f.key == key and f.kind == "impl" for f in self.run.failures):
             return
-        small, spos = prog, pos
-        try:
-            p2 = dict(prog, widths=widths_of(self.world, prog))
-            if pos is not None and len(plan) <= 1:
-                small, spos = L.slice_program(p2, pos)
-                plan = {spos: plan[pos]} if pos in plan else {}
-        except Exception:  # noqa: BLE001
-            small, spos = prog, pos
+        if self.minimising:
+            self.run.fail("impl", key, what)
+            return
+        small, splan, spos = prog, plan, pos
+        if pos is not None:
+            try:
+                p2 = dict(prog, widths=widths_of(self.world, prog))
+                cand, cpos = L.slice_program(p2, pos)
+                cand = {"sources": cand["sources"], "steps": cand["steps"]}
+                cplan = {cpos: plan[pos]} if pos in plan else {}
+                if self.reproduces(cand, backend, cplan, key, strict):
+                    small, splan, spos = cand, cplan, cpos
+            except Exception:  # noqa: BLE001
+                pass
         self.run.fail("impl", key, what, {
             "program": {"sources": small["sources"], "steps": small["steps"]}, "backend": backend,
-            "plan": {str(k): v for k, v in plan.items()}, "position": spos, "strict": strict, "observed": extra,
+            "plan": {str(k): v for k, v in splan.items()}, "position": spos, "strict": strict, "observed": extra,
+            "minimised": small is not prog,
             "how_to_read": "sources = arguments/constants/initializers (env entries 0..); each step applies template t "
                            "(harness/c15_lib.py templates) to env[args] and appends its outputs to env; plan maps a step "
                            "index to the fault injected into the backend while that step is constructed",
         })
+
+    def check_none_run(self, prog, none):
+        for p, r in enumerate(none["recs"]):
+            if r["skipped"]:
+                continue
+            if r["exc"] is not None:
+                cls = classify_exc(r["exc"])
+                self.impl_fail(f"C15/constructor-raises/{MECHANISM.get(cls, cls)}",
+                               f"constructing {r['t']} with value propagation switched off (backend NONE) raises "
+                               f"{type(r['exc']).__name__}", prog, "NONE", {}, p,
+                               {"exception": f"{type(r['exc']).__name__}: {str(r['exc'])[:200]}"})
+            elif r["calls"]:
+                self.run.fail("corr", "C15/backend-called-under-NONE", "an evaluator was invoked although the backend is NONE",
+                              {"template": r["t"]})
+            elif r["node"].op_type.identifier not in ("Constant",) and any(
+                    v._value is not None for v in r["node"].outputs.get_vars().values()):
+                self.run.fail("corr", "C15/value-under-NONE", "an operator output carries a value although the backend is NONE",
+                              {"template": r["t"]})
 
     # -- per step oracles + correspondence case -----------------------------------------------------------
     def check_step(self, prog, run_, p, fault_free=None):
@@ -425,8 +498,17 @@ class Checker:
     def check_downstream(self, prog, base, run_):
         """types under fault are equal or more permissive, values absent or identical (skipped below a fault whose
         payload conforms to the type but carries other values: that is not a detectable fault)."""
-        tainted = any((f or {}).get("payload") == "other-values" or (f or {}).get("names") in ("inputs", "inputs-only")
-                      or (f or {}).get("struct") == "swap" for f in run_["plan"].values())
+        # the theorem's hypothesis: every faulted step ended with nothing attached (or exactly the fault-free values).
+        # A payload that conforms to the type but carries other values cannot be detected by spox; runs containing one
+        # are not subject to this oracle (conformance of what was attached is checked by check_step).
+        tainted = False
+        for p in run_["plan"]:
+            rb, rc = base["recs"][p], run_["recs"][p]
+            if rc["outs"] is None or rb["outs"] is None:
+                continue
+            for vb, vc in zip(rb["outs"], rc["outs"]):
+                if vc._value is not None and (vb._value is None or not L.values_equal(vc._value, vb._value)):
+                    tainted = True
         for i, (vb, vc) in enumerate(zip(base["env"], run_["env"])):
             if vb is None or vc is None or vb is vc:
                 continue
@@ -549,21 +631,7 @@ def run(run: Run) -> int:
                     ck.check_step(prog, base, p)
                 # propagation switched off
                 none = run_program(world, prog, "NONE", typing=False)
-                for p, r in enumerate(none["recs"]):
-                    if r["skipped"]:
-                        continue
-                    if r["exc"] is not None:
-                        cls = classify_exc(r["exc"])
-                        ck.impl_fail(f"C15/constructor-raises/{MECHANISM.get(cls, cls)}",
-                                     f"constructing {r['t']} with value propagation switched off raises", prog, "NONE", {}, p,
-                                     {"exception": f"{type(r['exc']).__name__}: {str(r['exc'])[:200]}"})
-                    elif r["calls"]:
-                        run.fail("corr", "C15/backend-called-under-NONE", "an evaluator was invoked although the backend is NONE",
-                                 {"template": r["t"]})
-                    elif r["node"].op_type.identifier not in ("Constant",) and any(
-                            v._value is not None for v in r["node"].outputs.get_vars().values()):
-                        run.fail("corr", "C15/value-under-NONE", "an operator output carries a value although the backend is NONE",
-                                 {"template": r["t"]})
+                ck.check_none_run(prog, none)
                 called = [p for p, r in enumerate(base["recs"]) if not r["skipped"] and r["calls"] and r["outs"] is not None]
                 fault_runs = []
                 if called:
